@@ -18,7 +18,7 @@ RULE = ('graphs over node sets {0}, {0,1}, {0,2} (gap), {0,1,2} (thorough: also 
         'nd a node: owner\'s action <=> [an edge nd -> nd\' whose label holds, '
         'or self-loop requested] and the label of nd\' holds of the next '
         'valuation; dead ends admit nothing; init <=> nd initial (unless '
-        'ignored) and its label holds; the other player\'s action is TRUE '
+        'ignored) and its label holds, and never at a value of nd that is no node; the other player\'s action is TRUE '
         'unless receptive. non-trivial = graph has a dead end or a labelled '
         'edge; distinct = graph description')
 ASSUMPTIONS = ['dd trusted', 'label formulas are evaluated by the reference '
@@ -228,9 +228,12 @@ def run_case(case, acc):
         env = dict(zip(('nd', 'x', 'y'), row))
         nd = env['nd']
         if nd not in nodeset:
-            continue
-        exp = (case['ignore_initial'] or nd in g.initial_nodes) and \
-            holds(nlab[nd], env)
+            # a value of the node variable that is no node of the graph is
+            # never initial (without ignore_initial)
+            exp = bool(case['ignore_initial'])
+        else:
+            exp = (case['ignore_initial'] or nd in g.initial_nodes) and \
+                holds(nlab[nd], env)
         if (row in I) != exp:
             acc.violation('initial_condition_differs_from_graph', case,
                           detail=dict(valuation=row, init_holds=row in I,
